@@ -207,6 +207,11 @@ func NewFileSourceThroughCursor(
 	options ...FileSourceOption,
 ) *FileSource {
 
+	// cursor has already passed, ignoring it (same rule as ForkableHub.SourceThroughCursor)
+	if cursor.Block.Num() < startBlockNum {
+		return NewFileSource(mergedBlocksStore, startBlockNum, h, logger, options...)
+	}
+
 	wrappedHandler := newCursorResolverHandler(forkedBlocksStore, cursor, true, h, logger)
 
 	// first block after cursor's block/lib will be sent even if they don't match filter
